@@ -530,6 +530,14 @@ def install(R):
     @model
     def m_flatten_edges(ip, args, kw):
         return flatten_edges(args[0])
+    @model
+    def m_kron(ip, args, kw):
+        a, b = args[0].relabel(), args[1].relabel()
+        if a.rank != 2 or b.rank != 2:
+            raise Unsupported('np.kron of non-matrices')
+        # kron(A, B)[(i,k),(j,l)] = A[i,j] B[k,l]   (row-major grouping)
+        return TArr(a.factors + b.factors, [('flat', a.out[0], b.out[0]), ('flat', a.out[1], b.out[1])], a.coeff + b.coeff)
+    R.lib_models['numpy.kron'] = m_kron
     R.lib_models['numpy.identity'] = m_identity
     R.lib_models['numpy.diag'] = m_diag
     R.lib_models['tensornetwork.split_edge'] = m_split_edge
